@@ -35,12 +35,16 @@ type Opts struct {
 	Setup     func(vm data.VM) // extra registrations
 	FileName  string           // reported source name (Plain mode); default "t.zy"
 	File      string           // Template mode: parse this existing file instead of writing src to a scratch file
+	// CaptureStdout also captures what the run prints straight to os.Stdout (var_dump & co. use
+	// fmt.Print, not data.WriteOutput) into Result.Stdout.
+	CaptureStdout bool
 }
 
 type Result struct {
 	Out          string `json:"out"`
-	Kind         string `json:"kind"`            // "ok" | "parse" | "throw" | "exit" | "control" | "panic" | "fuel"
-	Class        string `json:"class,omitempty"` // throwable class / control type
+	Stdout       string `json:"stdout,omitempty"` // direct os.Stdout writes (only with Opts.CaptureStdout)
+	Kind         string `json:"kind"`             // "ok" | "parse" | "throw" | "exit" | "control" | "panic" | "fuel"
+	Class        string `json:"class,omitempty"`  // throwable class / control type
 	Msg          string `json:"msg,omitempty"`
 	Line         int    `json:"line,omitempty"` // 1-based line of the control's From, 0 if unknown
 	Col          int    `json:"col,omitempty"`
@@ -73,6 +77,10 @@ func scratch() string {
 
 // Cleanup removes the scratch directory.
 func Cleanup() {
+	if capFile != nil {
+		capFile.Close()
+		capFile = nil
+	}
 	if tmpDir != "" {
 		os.RemoveAll(tmpDir)
 		tmpDir = ""
@@ -329,10 +337,42 @@ func RunKeep(src string, o Opts) (res Result, s *Session) {
 	return
 }
 
+var capFile *os.File
+
+// captureStdout points os.Stdout at a scratch file; the returned func restores it and returns what
+// was written.
+func captureStdout() func() string {
+	if capFile == nil {
+		f, err := os.CreateTemp(scratch(), "stdout-")
+		if err != nil {
+			return func() string { return "" }
+		}
+		capFile = f
+	}
+	capFile.Truncate(0)
+	capFile.Seek(0, 0)
+	saved := os.Stdout
+	os.Stdout = capFile
+	return func() string {
+		os.Stdout = saved
+		n, _ := capFile.Seek(0, 1)
+		if n <= 0 {
+			return ""
+		}
+		b := make([]byte, n)
+		capFile.ReadAt(b, 0)
+		return string(b)
+	}
+}
+
 // Run executes src.
 func Run(src string, o Opts) (res Result) {
 	if o.Fuel == 0 {
 		o.Fuel = 5_000_000
+	}
+	if o.CaptureStdout {
+		restore := captureStdout()
+		defer func() { res.Stdout = restore() }()
 	}
 	var sb strings.Builder
 	savedOut := data.WriteOutput
